@@ -32,7 +32,7 @@ TraceInit == Init /\ l = 1 /\ quiesced = FALSE
 
 TReset ==
   /\ IsEvent("init")
-  /\ cache' = [k \in Keys |-> Nil] /\ pending' = {} /\ closed' = (E.closed = 1)
+  /\ cache' = [k \in Keys |-> Nil] /\ pending' = {} /\ closed' = (E.closed = 1) /\ collected' = (E.closed = 1)
   /\ readers' = [f \in Files |-> 0] /\ fst' = [f \in Files |-> "none"]
   /\ big' = [f \in Files |-> FALSE] /\ mainh' = [f \in Files |-> Nil]
   /\ pool' = [f \in Files |-> {}] /\ marks' = [f \in Files |-> 0] /\ nrel' = [f \in Files |-> 0]
@@ -75,9 +75,14 @@ TClean == /\ IsEvent("fs.clean")
           /\ Cardinality(pending') = E.npend
           /\ UNCHANGED quiesced
 
-TCloseMgr == /\ IsEvent("fs.close") /\ CloseMgr
-             /\ CloseReleased = E.nrel /\ Cardinality(pending') = E.npend
-             /\ UNCHANGED quiesced
+\* close(): "fs.closed" = cm.closed was found set (observed under cacheLock at the first critical
+\* section that sees it), "fs.close" = the files were collected and the cache maps emptied.  On
+\* the unchanged tree both belong to one critical section, so no other cacheLock event can be
+\* logged between them (CloseHeld disables Lookup / Insert / Dec / Clean meanwhile).
+TCloseMark == IsEvent("fs.closed") /\ CloseMark /\ UNCHANGED quiesced
+TCloseCollect == /\ IsEvent("fs.close") /\ CloseCollect
+                 /\ CloseReleased = E.nrel /\ Cardinality(pending') = E.npend
+                 /\ UNCHANGED quiesced
 
 TRelease == IsEvent("fs.release") /\ ReleaseStart(E.f) /\ UNCHANGED quiesced
 
@@ -109,7 +114,7 @@ TQuiesce == /\ IsEvent("quiesce")
 \* trailing marker of an execution (so that a FinalOK violation is attributed to this execution)
 TEnd == IsEvent("end") /\ UNCHANGED <<vars, quiesced>>
 
-TraceNext == \/ TEnd \/ TReset \/ TGet \/ TSet \/ TDec \/ TClean \/ TCloseMgr \/ TRelease \/ TOpen \/ TRead
+TraceNext == \/ TEnd \/ TReset \/ TGet \/ TSet \/ TDec \/ TClean \/ TCloseMark \/ TCloseCollect \/ TRelease \/ TOpen \/ TRead
              \/ TClose \/ TTake \/ TPut \/ TQuiesce
 
 TraceSpec == TraceInit /\ [][TraceNext]_tvars
@@ -117,7 +122,7 @@ TraceSpec == TraceInit /\ [][TraceNext]_tvars
 \* at the end nothing may be left: no response still references a file, no Release() is owed
 \* or half done, no handle is open, and each opened handle was closed exactly once
 FinalOK == quiesced =>
-  /\ closed
+  /\ closed /\ collected
   /\ \A r \in Reqs : pc[r] = "done" /\ held[r] = {}
   /\ \A f \in Files : readers[f] = 0 /\ marks[f] = 0 /\ relset[f] = {}
   /\ \A h \in Handles : hst[h] # "open" /\ (hst[h] = "closed" => ccount[h] = 1)
